@@ -264,7 +264,8 @@ Proof.
     + apply ret_ok in K2 as [<- <-]. cbn [add_kids f_kids]. rewrite hregs_app, hregs_single.
       pose proof (conserves_trans _ _ _ _ _ _ Hb Eclose) as Hc. unfold conserves in *.
       perm_count.
-  - cbn [eval_item] in H. inv_bind_as H k t1 Ek K1. inv_bind_as K1 fr1 t2 Ebody K2. inv_bind_as K2 u3 t3 E3 K3.
+  - cbn [eval_item] in H. inv_bind_as H k t1 Ek K1. inv_bind_as K1 fr1 t2 Ebody K2. inv_bind_as K2 uc tc Ec Kc.
+    apply chk_ok in Ec as [-> _]. inv_bind_as Kc u3 t3 E3 K3.
     apply ret_ok in K3 as [<- <-].
     assert (Er1 : s_regs t1 = s_regs s).
     { destruct pg; [apply ret_ok in Ek as [_ <-]; reflexivity|eapply fresh_dup_regs; eauto]. }
